@@ -97,6 +97,42 @@ RECORD = {
 }
 
 
+def id_rule(E, st, node, args, kws, k):
+    v = fresh_val(('opt', ('obj', 'Str')), 'test_id', st)
+    st.ghost['tid'] = v
+    return k(st, v)
+id_rule.__name__ = 'test.id(): the test id, or None (ghost G.tid)'
+id_rule.modifies = ['G.tid']
+
+
+def clsname_rule(E, st, node, args, kws, k):
+    v = fresh_val(('obj', 'Str'), 'class_name', st)
+    st.ghost['cls'] = v
+    return k(st, v)
+clsname_rule.__name__ = 'get_test_class_name(case): module.qualname of the test (or of the test a sub-test belongs to) (ghost G.cls)'
+clsname_rule.modifies = ['G.cls']
+
+
+PARSE_UNITTEST = {
+    'property': ['C17'],
+    'params': {'test': 'Any'},
+    'returns': 'Tuple[Opt[Str],Opt[Str],Opt[Str]]',
+    'ghost': {'tid': 'Opt[Str]', 'cls': 'Str'},
+    'requires': [],
+    'modifies': ['G.tid', 'G.cls'],
+    'ensures': [
+        "iff(result[0] is None, G.tid is None)", "iff(result[1] is None, G.tid is None)", "iff(result[2] is None, G.tid is None)",
+        # the suite (= report file) and the classname attribute are the test's own class
+        "implies(G.tid is not None, result[0] == G.cls and result[2] == G.cls)",
+        # classname + '.' + name is the test id (unittest: id() == strclass(cls) + '.' + method [+ sub-test description])
+        "implies(G.tid is not None and G.tid.startswith(G.cls + '.'), dotted(G.cls, result[1]) == G.tid)",
+    ],
+    'raises': {},
+    'rules': {'test.id': id_rule, 'get_test_class_name': clsname_rule},
+    'expr_rules': {"getattr(test, 'test_case', test)": 'fresh:Any'},
+}
+
+
 def syntactic(E):
     w, _, src = E.find_def('formatter.XMLOutputFormattingWrapper.writeXMLReports')
     E.syntactic_obligation("writeXMLReports takes tests/errors/failures attributes from the suite info and writes one testcase per recorded case",
@@ -110,8 +146,51 @@ def syntactic(E):
         f, _, s2 = E.find_def('formatter.XMLOutputFormattingWrapper.' + m)
         E.syntactic_obligation("XMLOutputFormattingWrapper.%s records the result exactly once" % m, s2.count('self._record(') == 1,
                                props=('C17',))
-    S = z3.String('S')
-    # leaf lemma on the regular expression of xml_safe is left to the bounded oracle (character classes)
+    xml_char_class_lemma(E)
+
+
+def is_xml_char(c):
+    """XML 1.0 production [2] Char"""
+    return c in (0x9, 0xA, 0xD) or 0x20 <= c <= 0xD7FF or 0xE000 <= c <= 0xFFFD or 0x10000 <= c <= 0x10FFFF
+
+
+def xml_char_class_lemma(E):
+    """Leaf lemma by COMPLETE enumeration of a finite domain (all 1 114 112 code points), on the real pattern text:
+    the character class of xml_safe matches exactly the code points that are not XML Chars.  Together with two facts
+    decided on the source -- the pattern is one character class without quantifier, the replacement is ASCII text built
+    with '\\x%02x' -- every character of xml_safe(s) is an XML Char, for every string s (re.sub replaces each match and
+    copies everything else: T4)."""
+    import re
+    import time
+    t0 = time.time()
+    tree = E.module('formatter')[0]
+    pat = None
+    for n in tree.body:
+        if isinstance(n, ast.Assign) and any(getattr(t, 'id', None) == '_illegal_xml_chars' for t in n.targets):
+            c = n.value
+            if isinstance(c, ast.Call) and ast.unparse(c.func) == 're.compile' and len(c.args) == 1 and not c.keywords \
+                    and isinstance(c.args[0], ast.Constant) and isinstance(c.args[0].value, str):
+                pat = c.args[0].value
+    ok, detail = False, 'pattern of _illegal_xml_chars not found as a literal re.compile(...) argument'
+    if pat is not None:
+        single_class = pat.startswith('[') and pat.endswith(']') and pat.count('[') == 1 and pat.count(']') == 1
+        try:
+            rx = re.compile(pat)
+            bad = [c for c in range(0x110000) if bool(rx.fullmatch(chr(c))) == is_xml_char(c)]
+        except re.error as e:
+            single_class, bad = False, ['re.error: %s' % e]
+        ok = single_class and not bad
+        detail = 'single character class: %s; code points on which the class disagrees with "not an XML Char": %s%s' % (
+            single_class, [hex(c) if isinstance(c, int) else c for c in bad[:8]], ' ...' if len(bad) > 8 else '')
+    fdef, _, src = E.find_def('formatter.xml_safe')
+    repl_ok = "_illegal_xml_chars.sub(lambda match: '\\\\x%02x' % ord(match.group()), text)" in ast.unparse(fdef)
+    from pyvc.state import Obligation
+    ob = Obligation('lemma/xml_safe leaves only XML Chars (character class == complement of Char, all code points enumerated)',
+                    'lemma(formatter_c17)', 'lemma', 'xml_safe character class', [], z3.BoolVal(True), '', None, ('C17',))
+    ob.status = 'proved' if (ok and repl_ok) else 'failed'
+    ob.backend, ob.time = 'enum(1114112 code points)', time.time() - t0
+    ob.detail = detail + ('' if repl_ok else '; xml_safe no longer substitutes with the ASCII escape')
+    E.lemma_obligations.append(ob)
 
 
 def register(E):
@@ -130,4 +209,26 @@ def register(E):
         "checked by the bounded oracle over hostile strings)",
     ]
     syntactic(E)
+    from pyvc.strlemma import pyslice
+    Str = usort('Str')
+    S_, C_ = z3.String('S'), z3.String('C')
+    s_, c_ = z3.Consts('s c', Str)
+    cat = z3.Function('str_concat__Str_Str', Str, Str, Str)
+    sl = z3.Function('str_slice_v_N_N__Str_Int', Str, I, Str)
+    ln = z3.Function('str_len__Str', Str, I)
+    sw = z3.Function('str_startswith__Str_Str', Str, Str, Bo)
+    dot = E.strlit('.').z
+    E.prove_string_lemma("s.startswith(c + '.')  =>  c + '.' + s[len(c) + 1:] == s",
+                         z3.Implies(z3.PrefixOf(z3.Concat(C_, z3.StringVal('.')), S_),
+                                    z3.Concat(z3.Concat(C_, z3.StringVal('.')),
+                                              z3.SubString(S_, z3.Length(C_) + 1, z3.Length(S_))) == S_),
+                         z3.ForAll([s_, c_], z3.Implies(sw(s_, cat(c_, dot)), cat(cat(c_, dot), sl(s_, ln(c_) + 1)) == s_)),
+                         props=('C17',))
+    def _dotted(eng, st, c, n):
+        n = n.inner if isinstance(n, VOpt) else n
+        if isinstance(n, VNone):
+            return VObj('Str', z3.Const('undefined_str', Str))       # only on paths where the clause is vacuous
+        return VObj('Str', cat(cat(c.z, dot), n.z))
+    E.specfuncs['dotted'] = _dotted
+    E.add_contract('formatter.parse_unittest', PARSE_UNITTEST)
     E.add_contract('formatter.XMLOutputFormattingWrapper._record', RECORD)
